@@ -954,7 +954,12 @@ def gen_operation(rng):
             bodies[-1][1] = gen_bounded(rng)
     method = rng.choice(["post", "put", "get", "patch"])
     others = [m for m in ALL_METHODS if m != method and rng.random() < 0.3]
-    return {"params": params, "bodies": bodies, "method": method, "other_methods": others, "modes": rng.choice(["P", "N", "PN", "PN", "PN"])}
+    desc = {"params": params, "bodies": bodies, "method": method, "other_methods": others, "modes": rng.choice(["P", "N", "PN", "PN", "PN"])}
+    # how the path item is written: in place, or as a `$ref` to a shared definition (its raw mapping then has the single key `$ref`)
+    desc["item"] = rng.choice(["inline", "inline", "inline", "ref_extension", "ref_components"])
+    if desc["item"] != "inline" and rng.random() < 0.6:  # a shared path item with 1-3 documented methods
+        desc["other_methods"] = rng.sample([m for m in ALL_METHODS if m != method], rng.choice([0, 1, 2]))
+    return desc
 
 
 def build_operation(desc):
@@ -968,8 +973,20 @@ def build_operation(desc):
     for m in desc["other_methods"]:
         item[m] = {"responses": {"200": {"description": "ok"}}}
     raw = {"openapi": desc.get("openapi", "3.0.2"), "info": {"title": "t", "version": "1"}, "paths": {path: item}}
+    how = desc.get("item", "inline")
+    if how == "ref_extension":
+        raw["paths"][path] = {"$ref": "#/x-path-items/shared"}
+        raw["x-path-items"] = {"shared": item}
+    elif how == "ref_components":
+        raw["paths"][path] = {"$ref": "#/components/pathItems/shared"}
+        raw["components"] = {"pathItems": {"shared": item}}
     schema = schemathesis.openapi.from_dict(raw)
     return schema[path][desc["method"].upper()]
+
+
+def documented_methods(desc):
+    """The methods the RESOLVED path item documents, read off the description the document was built from (not off the code)."""
+    return sorted({desc["method"], *desc["other_methods"]})
 
 
 def record_shape(operation, desc):
@@ -996,7 +1013,7 @@ def record_shape(operation, desc):
         values[("body", b.media_type)] = {"values": vals, "schema": b.as_json_schema(operation, update_quantifiers=False)}
         medias.append(b.media_type)
         bodies.append({"media": len(medias) - 1, "modes": [m for _, m, _ in vals]})
-    methods = sorted(set(ALL_METHODS) - set(operation.schema[operation.path]))
+    documented = documented_methods(desc)
     # template container per location (names whose generator yielded something), for the combination subschemas
     combos = {}
     for loc, pset in (("query", operation.query), ("header", operation.headers), ("cookie", operation.cookies)):
@@ -1019,7 +1036,7 @@ def record_shape(operation, desc):
         n_req = count([nm for nm in base if nm in required]) if GM.NEGATIVE in modes else 0
         n_opt = [count([nm for nm in base if nm in required or nm == o]) if GM.NEGATIVE in modes else 0 for o in optional]
         combos[loc] = (n_req, n_opt)
-    shape = {"params": params, "bodies": bodies, "pos": "P" in desc["modes"], "neg": "N" in desc["modes"], "methods": methods, "combos": combos}
+    shape = {"params": params, "bodies": bodies, "pos": "P" in desc["modes"], "neg": "N" in desc["modes"], "documented": documented, "ref": desc.get("item", "inline") != "inline", "combos": combos}
     return shape, rank, medias, values
 
 
@@ -1045,7 +1062,7 @@ def c_shape(shape, rank):
     return (
         "{| sh_params := %s; sh_bodies := %s; sh_pos := %s; sh_neg := %s; sh_methods := %s; "
         "sh_combo_query := %s; sh_combo_header := %s; sh_combo_cookie := %s |}"
-        % (ps, bs, cbool(shape["pos"]), cbool(shape["neg"]), clist([cN(ALL_METHODS.index(m)) for m in shape["methods"]], "N"), combo("query"), combo("header"), combo("cookie"))
+        % (ps, bs, cbool(shape["pos"]), cbool(shape["neg"]), "unspecified_methods (%s %s)" % ("PRef" if shape["ref"] else "PInline", clist([cN(ALL_METHODS.index(m)) for m in shape["documented"]], "N")), combo("query"), combo("header"), combo("cookie"))
     )
 
 
@@ -1264,6 +1281,25 @@ def compare_operation(chk, ctx, val, stats):
     chk.count(f"operation:modes={desc['modes']}")
     chk.count(f"operation:params={len(desc['params'])},bodies={len(desc['bodies'])}")
     agree = canon_i == canon_m and iend == mend
+    # oracle: an "Unspecified HTTP method" case (labelled negative) uses a method that the RESOLVED path item does not document,
+    # and under negative generation every undocumented method of the universe gets such a case
+    documented = documented_methods(desc)
+    used = [c["sig"][1] for c in icases if c["sig"][0] == "method"]
+    stats["method_checks"] = stats.get("method_checks", 0) + len(used)
+    wrongly = sorted(m for m in used if m in documented)
+    absent = sorted(set(ALL_METHODS) - set(documented) - set(used)) if "N" in desc["modes"] and iend == "Completed" else []
+    if wrongly:
+        chk.fail(
+            "a case 'Unspecified HTTP method' (labelled negative) uses a method that the resolved path item documents",
+            {"operation": desc, "path_item": desc.get("item", "inline"), "documented": documented, "unspecified_method_cases_for": wrongly},
+        )
+    elif absent:
+        chk.fail(
+            "no 'Unspecified HTTP method' case for a method that the resolved path item does not document",
+            {"operation": desc, "path_item": desc.get("item", "inline"), "documented": documented, "no_case_for": absent},
+        )
+    if desc.get("item", "inline") != "inline":
+        chk.count(f"operation:path_item={desc['item']},documented={len(documented)}")
     if not agree:
         first = next((i for i, (a, b) in enumerate(zip(canon_i, canon_m)) if a != b), min(len(canon_i), len(canon_m)))
         tie_broken(
